@@ -192,7 +192,7 @@ def run(res):
     pjobs = []
     for k, j in enumerate(pairs):
         for side in ("a", "b"):
-            pjobs.append({"op": "run", "id": "%d%s" % (k, side), "bundle": j["bundle_" + side], "path": "p", "slotValues": {"$o": {}},
+            pjobs.append({"op": "run", "id": "%d%s" % (k, side), "bundle": j["bundle_" + side], "path": j.get("path_" + side, "p"), "slotValues": {"$o": {}},
                           "steps": [{"create": j["data"]}]})
     pout = node_jobs(pjobs, shards=12)
     n_pairs = 0
